@@ -4,6 +4,17 @@ Asynchronous-interruption seam: a ``sys.settrace`` function that counts
 ``SimInterrupt`` (a BaseException, like KeyboardInterrupt) *inside* the traced
 frame at event number ``at``.  Deterministic: the count depends only on the
 code path, which the plan fixes.
+
+Not every line event is a usable injection point.  CPython 3.12 reports a
+``line`` event again when a backward jump lands on the line it started from
+(a one-line ``for`` loop, the loop of an inlined comprehension), and an
+exception raised by the trace function at *that* event is not routed through
+the handlers that protect the line -- an enclosing ``with`` block does not
+run ``__exit__`` (reproduced with ten lines of plain Python and a real file;
+a KeyboardInterrupt delivered by a signal does not behave so).  An interrupt
+that would fire there is therefore deferred to the next event that is not
+such a repeat: a tracing artifact must not be taken for behaviour of the
+code under test.
 """
 
 import os
@@ -24,11 +35,19 @@ class Interrupter:
         self.frame_line = None
         self.frame_func = None
         self.frame_stack = []
+        self.deferred = 0
+        self._last_line = {}
 
     def _local(self, frame, event, arg):
         if event == "line":
             self.count += 1
-            if self.count == self.at and not self.fired:
+            key = id(frame)
+            repeat = self._last_line.get(key) == frame.f_lineno
+            self._last_line[key] = frame.f_lineno
+            if self.at > 0 and self.count >= self.at and not self.fired \
+                    and repeat:
+                self.deferred += 1
+            elif self.at > 0 and self.count >= self.at and not self.fired:
                 self.fired = True
                 self.where = (os.path.basename(frame.f_code.co_filename),
                               frame.f_lineno)
@@ -45,6 +64,8 @@ class Interrupter:
                 self.frame_line = linecache.getline(
                     frame.f_code.co_filename, frame.f_lineno)
                 raise SimInterrupt()
+        elif event == "return":
+            self._last_line.pop(id(frame), None)
         return self._local
 
     def _global(self, frame, event, arg):
